@@ -99,7 +99,7 @@ def main():
 
 def finish(res, ok, mdir=None):
     res["confirmed"] = bool(ok)
-    out = os.path.join("/tmp/wt", "confirm-%s.json" % res["id"])
+    out = os.path.join(os.path.dirname(res["worktree"].rstrip("/")), "confirm-%s.json" % res["id"])
     json.dump(res, open(out, "w"), indent=1)
     if ok and mdir:
         dst = os.path.join(VERIF, "seeded", res["id"])
